@@ -228,7 +228,10 @@ def run(ctx):
     ev.assumptions, ev.bind = {}, {}
     R.floor("C16.0", n_modes, 9, "sender_kind_modes")
     check_selection_count(ctx)
+    check_message_call(ctx, "C16.2")
     # shared obligations
+    from . import c08
+    c08.check_dispatch(ctx, "C16.9")  # recipient / change / sender scripts come from scriptpubkey(address)
     c11.check_rows(ctx, "C16.9")
     c01.check_der(ctx, "C16.9")
     c05.check_writer(ctx, "C16.9")
@@ -292,6 +295,16 @@ def check_message_call(ctx, oid="C16.2", kinds=("p2wpkh", "p2wsh")):
         R.check(oid, "TYPE", fi, "%s: signed amount = the input's exact satoshi value" % kind,
                 bool(bvs) and tm.veq(args[2], T("round", (tm.mul([1e8, T("field", (bvs[0], "amount"))]),), tm.INT)),
                 "the signed amount is %s" % tm.show(args[2])[:160], example="an amount such as 0.29 BTC (float product truncates to 28999999)")
+        # the inputs that are signed and the inputs of the returned transaction are built with the same nSequence
+        seqs = []
+        for c in s.calls:
+            if c[0] == "bits.tx.txin":
+                sq = c[2].get("sequence") if isinstance(c[2], dict) and "sequence" in c[2] else (c[1][2] if len(c[1]) > 2 else None)
+                if not any(tm.veq(sq, q) for q in seqs):
+                    seqs.append(sq)
+        R.check(oid, "PROV", fi, "%s: every txin() of send_tx is built with the same sequence (signed inputs = returned inputs)" % kind, len(seqs) == 1,
+                "send_tx builds inputs with different sequence numbers at different sites: %s — the signatures commit to other inputs than the returned transaction has" % [
+                    tm.show(q)[:60] for q in seqs], example="a non-zero locktime")
         R.check(oid, "PROV", fi, "%s: version / locktime / flag forwarded" % kind,
                 tm.veq(kw.get("version"), P("version", tm.INT)) and tm.veq(kw.get("locktime"), P("locktime", tm.INT)) and tm.veq(kw.get("sighash_flag"), flag),
                 "witness_message does not receive send_tx's version/locktime/sighash flag", example="version 2, locktime 5")
